@@ -272,8 +272,10 @@ def run(ctx):
     ctx.extra['undecided_child_kinds'] = undecided
     # MatchAs special-case arm must still exist
     fn = ctx.repo.funcs('astutil', 'precedence_require_parens_by_type')[0].node
-    txt = norm(ast.unparse(fn), 100000)
-    ctx.check('R9.1', "_Precedence.ATOM if flags.get('matchas_pat_None') else _Precedence.TEST" in txt, 'astutil',
+    arm = any(isinstance(x, ast.IfExp) and any(isinstance(y, ast.Constant) and y.value == 'matchas_pat_None' for y in ast.walk(x.test)) and
+              isinstance(x.body, ast.Attribute) and x.body.attr == 'ATOM' and isinstance(x.orelse, ast.Attribute) and x.orelse.attr == 'TEST'
+              for x in ast.walk(fn))
+    ctx.check('R9.1', arm, 'astutil',
               'precedence_require_parens_by_type', 'MatchAs precedence arm',
               'MatchAs (child precedence True) must resolve to ATOM for a bare capture and TEST for `p as n`')
 
@@ -372,9 +374,10 @@ def check_use(ctx, F):
     ok = False
     for c in calls:
         args = [norm(a) for a in c.args]
-        if args[:4] == ['put_ast', 'self.a', 'field', 'idx']:
+        if len(args) >= 4 and args[1] == 'self.a':          # (child, parent = the target node, field, idx)
             tests = enclosing_tests(np[0].node, c)
-            ok = any(norm(t) == 'not put_fst._is_atom(pars=False)' and pol for t, pol in tests)
+            ok = any(pol and isinstance(t, ast.UnaryOp) and isinstance(t.op, ast.Not) and isinstance(t.operand, ast.Call) and
+                     call_name(t.operand) == '_is_atom' for t, pol in tests)
     ctx.check('R9.3', ok, 'fst_put_one', '_make_exprlike_fst.need_pars', 'precedence_require_parens(put_ast, self.a, field, idx)',
               'need_pars() must ask precedence_require_parens(put_ast, self.a, field, idx) for every non-atom put',
               np[0].lineno)
